@@ -1291,6 +1291,19 @@ def check_C20(ctx):
         lines += ['k.free %d' % obj, 'k.dump %d' % obj]; frees.append((len(lines) - 1, 72))
         hl, _ = _prng_history(g, obj, g.randint(0, 8), [0, 1, 33, 100], PR_LIMITS)
         lines += hl + ['p.free %d' % obj, 'p.dump %d' % obj]; frees.append((len(lines) - 1, 96))
+    # directed boundary states: a free function must wipe whatever the object holds — an exhausted HKDF state (counter wrapped to 0), objects whose
+    # counter / position fields are 0 or 0xFF, an object freed straight after being dirtied
+    for obj, cb in ((0, 0), (1, 255), (2, 1)):
+        d = bytearray(g.bytes(72, 'rand')); d[64] = cb; d[65] = g.choice([0, 32, 255])
+        lines += ['k.dirty %d %s' % (obj, hx(bytes(d))), 'k.free %d' % obj, 'k.dump %d' % obj]; frees.append((len(lines) - 1, 72))
+    for obj, tot in ((3, [8160]), (4, [8159, 1, 1]), (5, [4000, 4160, 40])):
+        lines += ['k.dirty %d %s' % (obj, hx(g.bytes(72, 'rand'))), 'k.extract %d %s %s' % (obj, hx(g.bytes(9)), hx(g.bytes(8)))]
+        lines += ['k.expand %d %s %d' % (obj, hx(b'inf'), n) for n in tot]
+        lines += ['k.free %d' % obj, 'k.dump %d' % obj]; frees.append((len(lines) - 1, 72))
+    for kind in ('h', 'm'):
+        for obj, fill in ((6, 0), (7, 255)):
+            d = bytearray(g.bytes(56, 'rand')); d[48:52] = bytes([fill]) * 4
+            lines += ['%s.dirty %d %s' % (kind, obj, hx(bytes(d))), '%s.free %d' % (kind, obj), '%s.dump %d' % (kind, obj)]; frees.append((len(lines) - 1, 56))
     fset = {i for i, _ in frees}
     impl, model = ctx.corr('free-histories', lines, vs, stateless=False, nontrivial=lambda i: ('free@%d' % i) if i in fset else False)
     for v in vs:
